@@ -8,7 +8,7 @@ import implenv
 from implenv import res as ires
 
 INFO = {
-    'proof_files': ['Proofs/LetterIdProofs.v'],
+    'proof_files': ['Proofs/LetterIdProofs.v', 'Proofs/LabelMatcher.v', 'Proofs/DocSemTop.v', 'Proofs/DocParseE.v', 'Proofs/DocParseF.v'],
     'assumptions': [
         'theorems are about WD.LetterId (n2l / letter_id_to_number / id_label), tied to core/letter_id_generator.py by the exhaustive+sampled correspondence below',
         'non-ASCII input to letter_id_to_number is out of model (str.lower of e.g. U+212A yields an ASCII letter); counted, not compared',
@@ -88,11 +88,57 @@ def run(res):
     res.kernel_replays += n
     if not ok:
         res.disagree('in-kernel replay differs from extracted model', None, None, out[-500:], sig={'entry': 'kernel-replay'})
-    try:
-        from props import session_labels
-        session_labels.run(res)
-    except ImportError:
-        res.extra['label_as_matcher'] = 'not yet wired'
+    synthetic_labels(res, rnd)
+    from props import session_labels
+    session_labels.run(res)
+
+
+def synthetic_labels(res, rnd):
+    """C14_label_as_matcher on /repo, far beyond the incarnations a generated session reaches: for sampled
+    (connection ordinal, id, generation) the label text `NAME: IDletters` must select exactly the messages of that
+    connection that are on / create / destroy / mention that incarnation, and `NAME:` exactly that connection's."""
+    import universe
+    from core import matcher
+    from core.letter_id_generator import number_to_letter_id
+    gens = list(range(0, 60)) + [675, 676, 700, 701, 702, 703, 17575, 18277, 18278] + [rnd.randrange(10 ** 6) for _ in range(40 if res.tier == 'quick' else 2000)]
+    ords = [0, 1, 2, 24, 25, 26, 27, 51, 52, 675, 701, 702] + [rnd.randrange(20000) for _ in range(10)]
+    cases = []
+    for g in gens:
+        oid = rnd.choice([3, 7, 12, 4278190080])
+        cn = number_to_letter_id(rnd.choice(ords), True)
+        other = number_to_letter_id(rnd.choice(ords), True)
+        ob = (oid, g, 'wl_surface')
+        near = [(oid, g + 1, 'wl_surface'), (oid, max(g - 1, 0), 'wl_surface'), (oid + 1, g, 'wl_surface'), (oid, g + 26, 'wl_surface')]
+        msgs = [dict(conn=cn, obj=ob, name='commit', args=[], destroyed=None),
+                dict(conn=other, obj=ob, name='commit', args=[], destroyed=None),
+                dict(conn=cn, obj=(1, 0, 'wl_display'), name='delete_id', args=[('id', 'int', oid, None)], destroyed=ob),
+                dict(conn=cn, obj=(2, 0, 'wl_compositor'), name='create_surface', args=[('id', 'obj', ob, True)], destroyed=None),
+                dict(conn=cn, obj=(5, 0, 'wl_pointer'), name='enter', args=[('serial', 'int', 1, None), ('surface', 'obj', ob, False)], destroyed=None)]
+        for nb in near:
+            msgs.append(dict(conn=cn, obj=nb, name='commit', args=[], destroyed=None))
+            msgs.append(dict(conn=cn, obj=(5, 0, 'wl_pointer'), name='enter', args=[('surface', 'obj', nb, False)], destroyed=None))
+        want = [1 if (m['conn'] == cn and (m['obj'] == ob or m['destroyed'] == ob or any(a[1] == 'obj' and a[2] == ob for a in m['args']))) else 0 for m in msgs]
+        want_conn = [1 if m['conn'] == cn else 0 for m in msgs]
+        letters = number_to_letter_id(g, False)
+        sep = rnd.choice([': ', ':', ' : ', ':  '])
+        cases.append((cn + sep + str(oid) + letters, msgs, want))
+        cases.append((cn + ':', msgs, want_conn))
+    model = common.model_eval('meval', [[t, [universe.sx_msg(m) for m in msgs]] for t, msgs, _ in cases])
+    for (t, msgs, want), mr in zip(cases, model):
+        res.evaluations += 1
+        try:
+            sm = matcher.parse(t).simplify()
+            got = [1 if sm.matches(universe.impl_msg(m)) else 0 for m in msgs]
+        except Exception as e:
+            got = repr(e)
+        if got != want:
+            res.disagree('a displayed label used as a matcher does not select exactly the messages involving that object / connection', t, want, got,
+                         sig={'entry': 'label-synthetic', 'category': 'label-as-matcher', 'text': t}, theorem='C14_label_as_matcher / C14_conn_as_matcher')
+        elif mr != ['raise', 99] and (mr[0] != 'ok' or mr[1][0] != want):
+            res.disagree('model disagrees with its own theorem on a label (harness or model defect)', t, want, mr, sig={'entry': 'label-synthetic', 'category': 'model'})
+        else:
+            res.nontriv(('label', t))
+    res.count('synthetic_labels', len(cases))
 
 
 def replay(dis):
